@@ -371,3 +371,13 @@ pub fn spec_fits(v: i64, bits: usize) -> bool {
     let hi = (1i64 << (bits - 1)) - 1;
     lo <= v && v <= hi
 }
+
+// ------------------------------------------------------------------------------------------------
+// Stubs shared by harnesses
+// ------------------------------------------------------------------------------------------------
+
+/// Replacement for `alloc::fmt::format` in harnesses where only the *presence* of an error
+/// matters, not its text (message formatting dominates CBMC cost otherwise).
+pub fn stub_format(_args: core::fmt::Arguments<'_>) -> String {
+    String::new()
+}
